@@ -39,7 +39,10 @@ func rootOf(md protoreflect.MessageDescriptor) protoreflect.MessageDescriptor {
 
 func isCodeWrapper(md protoreflect.MessageDescriptor) bool {
 	vf := md.Fields().ByName("value")
-	return vf != nil && strings.HasSuffix(string(md.Name()), "Code") && (vf.Kind() == protoreflect.EnumKind || vf.Kind() == protoreflect.StringKind) && string(md.FullName()) != "google.fhir.r4.core.Code"
+	// a code bound to a value set: google/fhir annotates the wrapper with the value-set url; most are named ...Code,
+	// the wrapper of an element that is itself called "code" is named CodeType
+	named := strings.HasSuffix(string(md.Name()), "Code") || (md.Name() == "CodeType" && valueSetURL(md) != "")
+	return vf != nil && named && (vf.Kind() == protoreflect.EnumKind || vf.Kind() == protoreflect.StringKind) && string(md.FullName()) != "google.fhir.r4.core.Code"
 }
 
 func declOf(m proto.Message) declType {
